@@ -65,15 +65,24 @@ def _gen_leaf(rnd, allowed):
     return {"leaf": act, "shape": d}
 
 
+def _dupify(rnd, children):
+    """with some probability the i-th child becomes a reference to the same collection object as child i-1"""
+    import copy
+    for i in range(1, len(children)):
+        if "leaf" not in children[i - 1] and rnd.random() < 0.35:
+            children[i] = dict(copy.deepcopy({k: v for k, v in children[i - 1].items() if k != "dup"}), dup=True)
+    return children
+
+
 def _gen_tree(rnd, depth, allowed, budget):
     if depth == 0 or budget[0] <= 1 or rnd.random() < 0.35:
         budget[0] -= 1
         return _gen_leaf(rnd, allowed)
     n = rnd.randint(1, 3)
+    kids = _dupify(rnd, [_gen_tree(rnd, depth - 1, allowed, budget) for i in range(n)])
     if rnd.random() < 0.5:
-        return {"dict": [[rnd.choice(["a", "b", "c", "d", "e", "_r", "_pad", "x_"]) + str(i),
-                          _gen_tree(rnd, depth - 1, allowed, budget)] for i in range(n)]}
-    return {"list": [_gen_tree(rnd, depth - 1, allowed, budget) for i in range(n)]}
+        return {"dict": [[rnd.choice(["a", "b", "c", "d", "e", "_r", "_pad", "x_"]) + str(i), k] for i, k in enumerate(kids)]}
+    return {"list": kids}
 
 
 def configs(tier, seed):
@@ -102,9 +111,18 @@ def _to_fields(tree):
     if "leaf" in tree:
         cls = getattr(action, tree["leaf"])
         return csr.Field(cls, _shape(tree["shape"]))
+    # a sub-collection marked "dup" is the SAME Python object as its left neighbour (`ch0: CHANNEL; ch1: CHANNEL`)
     if "dict" in tree:
-        return {k: _to_fields(v) for k, v in tree["dict"]}
-    return [_to_fields(v) for v in tree["list"]]
+        out, prev = {}, None
+        for k, v in tree["dict"]:
+            prev = prev if (v.get("dup") and prev is not None) else _to_fields(v)
+            out[k] = prev
+        return out
+    out, prev = [], None
+    for v in tree["list"]:
+        prev = prev if (v.get("dup") and prev is not None) else _to_fields(v)
+        out.append(prev)
+    return out
 
 
 def _walk(tree, obj):
